@@ -194,9 +194,13 @@ func (r *Reader) Info() (*Info, error) {
 	if err != nil {
 		return nil, fmt.Errorf("failed to get current stream position: %w", err)
 	}
+	// the summary is parsed with a lexer of its own; the mode of the reader's lexer belongs
+	// to whichever message iterator is using it
+	emitChunks := r.l.emitChunks
 	it := r.indexedMessageIterator(&ReadOptions{
 		UseIndex: true,
 	})
+	r.l.emitChunks = emitChunks
 	err = it.parseSummarySection()
 	if _, seekErr := r.rs.Seek(pos, io.SeekStart); seekErr != nil && err == nil {
 		err = fmt.Errorf("failed to restore stream position: %w", seekErr)
